@@ -1,4 +1,4 @@
-import HdVerif.Proofs.SegReadLabel
+import HdVerif.Proofs.SegReadCombine
 import HdVerif.Proofs.SegMeta
 /-! # C02  Segment selection, ordering, combining and relabelling are exact
 
@@ -10,8 +10,9 @@ current source* (`Gen.readHead`, `Gen.labelmapDecision`, `Gen.stackDecision`, `G
 
 A stored object is a list of frames (stack value, referenced segment number, pixels).  "The mask of segment `s` at
 stack value `k`" is, for a label map, the set of pixels of `rawLabels st k` (the plane stored for `k`, all zero when
-the object has none) that equal `s`.  That the stored frames represent the mask given to the constructor is
-property C01. -/
+the object has none) that equal `s`; for a BINARY / FRACTIONAL object it is `segPlane st k s`, the pixels of the one
+frame stored for (`k`, `s`), all zero when there is none (`covers st k s i`: pixel `i` of it is set).  That the stored
+frames represent the mask given to the constructor is property C01. -/
 namespace HdVerif.C02
 open HdVerif HdVerif.Gen HdVerif.SegRead HdVerif.SegMeta HdVerif.SegReadLemmas HdVerif.SegMetaLemmas
 
@@ -159,6 +160,102 @@ theorem labelmap_stacked_channel (st : Stored) (rq : Req) (wf : WfLabel st) (hc 
   · have : ¬ rq.segs[c]? = some v := fun h' => h ((posNat_eq_succ_iff rq.segs hnd v c).mpr h')
     simp [h, this]
 
+/-! ## BINARY / FRACTIONAL (tie T: T8d) -/
+
+/-- **Stacked read, BINARY and FRACTIONAL**: channel `c` of output frame `j` is the plane stored for the `c`-th
+requested segment at the `j`-th requested stack value (all zero when the object has no such frame) — any subset, any
+order; for a rescaled FRACTIONAL read every entry means value / MaximumFractionalValue. -/
+theorem stacked_channel (st : Stored) (rq : Req) (wf : WfStack st) (hc : rq.combine = false)
+    (hsub : ∀ s ∈ rq.segs, s ∈ st.segNums) (hcap : ceiling st rq ≤ (chosenDtype st rq).maxVal)
+    (hfl : willRescale st rq = true → (chosenDtype st rq).isFloat = true) :
+    readCore st rq = .ok (.stacked (if willRescale st rq then st.mfv else 1)
+      (rq.keys.map fun k => rq.segs.map fun s => (segPlane st k s).map Int.ofNat)) := by
+  rw [capacity_accepted st rq hsub hcap]
+  simp only [wf.type, ↓reduceIte]
+  exact stackRead_stacked st rq _ wf hc hcap hfl
+
+/-- a rescaled FRACTIONAL read into a non-float dtype is refused -/
+theorem rescaled_requires_float (st : Stored) (rq : Req) (hnl : st.type ≠ .labelmap)
+    (hsub : ∀ s ∈ rq.segs, s ∈ st.segNums) (hw : willRescale st rq = true)
+    (hnf : (chosenDtype st rq).isFloat = false) : readCore st rq = .error .value := by
+  rw [readCore_eq st rq hsub]
+  by_cases h : ceiling st rq > (chosenDtype st rq).maxVal
+  · simp [h]
+  · simp only [h, ↓reduceIte, hnl]
+    unfold stackRead
+    rw [stackDecision_eq]
+    simp [hw, hnf, bind, Except.bind]
+
+/-- combining a FRACTIONAL segmentation without rescaling is refused -/
+theorem fractional_combine_requires_rescale (st : Stored) (rq : Req) (hty : st.type = .fractional)
+    (hsub : ∀ s ∈ rq.segs, s ∈ st.segNums) (hc : rq.combine = true) (hr : rq.rescale = false) :
+    readCore st rq = .error .value := by
+  rw [readCore_eq st rq hsub]
+  by_cases h : ceiling st rq > (chosenDtype st rq).maxVal
+  · simp [h]
+  · simp only [h, ↓reduceIte, hty]
+    unfold stackRead
+    rw [stackDecision_eq]
+    have : willRescale st rq = false := by unfold willRescale; simp [hc]
+    simp [this, hc, hr, hty, bind, Except.bind]
+
+/-- **Overlap refused**: with the check on, a combined read in which two different requested segments share a
+pixel of a requested plane raises the RuntimeError (BINARY, and FRACTIONAL with 0/max-valued frames). -/
+theorem overlap_refused (st : Stored) (rq : Req) (wf : WfStack st) (hc : rq.combine = true) (hnd : rq.segs.Nodup)
+    (hsub : ∀ s ∈ rq.segs, s ∈ st.segNums) (hbin : AllBinary st) (hfr : st.type = .fractional → rq.rescale = true)
+    (hcap : ceiling st rq ≤ (chosenDtype st rq).maxVal) (hskip : rq.skipOverlap = false)
+    (k : Nat) (hk : k ∈ rq.keys) (s₁ s₂ i : Nat) (h1 : s₁ ∈ rq.segs) (h2 : s₂ ∈ rq.segs) (hne : s₁ ≠ s₂)
+    (hc1 : covers st k s₁ i) (hc2 : covers st k s₂ i) : readCore st rq = .error .runtime := by
+  rw [capacity_accepted st rq hsub hcap]
+  simp only [wf.type, ↓reduceIte]
+  have hw : willRescale st rq = false := by unfold willRescale; simp [hc]
+  rw [hw]
+  apply stackRead_combined_overlap st rq _ wf hc hnd hsub hbin hfr hcap hskip k hk
+  intro hno
+  exact hno s₁ h1 s₂ h2 hne i ⟨hc1, hc2⟩
+
+/-- **No overlap (or check skipped) ⇒ accepted, and every pixel is the combined value**: the result has one frame
+per requested stack value, and pixel `i` of frame `j` is the largest output value (own number, or 1-based position
+under `relabel`) among the requested segments covering it, 0 when none does. -/
+theorem combined_value (st : Stored) (rq : Req) (wf : WfStack st) (hc : rq.combine = true) (hnd : rq.segs.Nodup)
+    (hsub : ∀ s ∈ rq.segs, s ∈ st.segNums) (hbin : AllBinary st) (hfr : st.type = .fractional → rq.rescale = true)
+    (hcap : ceiling st rq ≤ (chosenDtype st rq).maxVal)
+    (hno : rq.skipOverlap = true ∨ ∀ k ∈ rq.keys, NoOverlap st rq.segs k) :
+    ∃ out, readCore st rq = .ok (.combined out) ∧ out.length = rq.keys.length ∧
+      ∀ j (hj : j < rq.keys.length) (hj' : j < out.length) i, i < st.npix →
+        ∃ v, (out[j])[i]? = some v ∧ IsCombinedValue st rq.segs rq.relabel rq.keys[j] i v := by
+  rw [capacity_accepted st rq hsub hcap]
+  simp only [wf.type, ↓reduceIte]
+  have hw : willRescale st rq = false := by unfold willRescale; simp [hc]
+  rw [hw, stackRead_combined_ok st rq _ wf hc hnd hsub hbin hfr hcap hno]
+  refine ⟨_, rfl, by simp, ?_⟩
+  intro j hj hj' i hi
+  simp only [List.getElem_map]
+  have hcapV : ∀ s ∈ rq.segs, outVal rq.segs rq.relabel s ≤ (chosenDtype st rq).maxVal :=
+    fun s hs => Int.le_trans (outVal_le_ceiling st rq hc s hs) hcap
+  exact combined_pixel st wf rq.segs rq.relabel hnd rq.keys[j] hsub hbin _ hcapV i hi
+
+/-- reading `IsCombinedValue`: a pixel no requested segment covers is 0 — in particular **segments that were not
+requested never appear** — and, without overlap, a pixel covered by requested segment `s` holds `outVal s`. -/
+theorem combined_value_cases (st : Stored) (segs : List Nat) (relabel : Bool) (k i : Nat) (v : Int)
+    (h : IsCombinedValue st segs relabel k i v) :
+    ((∀ s ∈ segs, ¬ covers st k s i) → v = 0) ∧
+    (∀ s ∈ segs, 0 < s → covers st k s i → NoOverlap st segs k → v = outVal segs relabel s) := by
+  obtain ⟨hdom, hatt⟩ := h
+  constructor
+  · intro hnone
+    rcases hatt with h0 | ⟨s, hs, hcv, _⟩
+    · exact h0
+    · exact absurd hcv (hnone s hs)
+  · intro s hs hpos hcv hno
+    have h1 := hdom s hs hcv
+    have hp := outVal_pos segs relabel s hs hpos
+    rcases hatt with h0 | ⟨s', hs', hcv', hv'⟩
+    · omega
+    · by_cases hss : s' = s
+      · rw [hv', hss]
+      · exact absurd ⟨hcv', hcv⟩ (hno s' hs' s hs hss i)
+
 /-! ## Missing source frames -/
 
 /-- **Refused unless asserted**: when a requested stack value is unknown to the object (a source instance it does
@@ -282,6 +379,44 @@ example : readCore exStored { keys := [1], segs := [700, 3], combine := false, r
 /-- 700 does not fit int8: refused -/
 example : readCore exStored { keys := [1], segs := [700, 3], combine := true, relabel := false, rescale := true, skipOverlap := false, dtype := some .i8 } = .error .value :=
   capacity_refused exStored _ (by decide) (by decide)
+
+
+/-! A BINARY object: segments 1 and 2 overlap in pixel 1 of the plane at 7, segment 3 is stored only at 8. -/
+
+def exBin : Stored :=
+  { type := .binary, segNums := [1, 2, 3], bitsStored := 1, mfv := 1, bg := 0, npix := 3,
+    frames := [⟨7, 2, [0, 1, 1]⟩, ⟨7, 1, [1, 1, 0]⟩, ⟨8, 3, [0, 0, 1]⟩, ⟨8, 1, [1, 0, 0]⟩] }
+
+theorem exBin_wf : WfStack exBin :=
+  { type := by decide, unique := by decide, range := by decide, mfv := by decide, pos := by decide, len := by decide }
+
+theorem exBin_binary : AllBinary exBin := by unfold AllBinary; decide
+
+example : readCore exBin { keys := [8, 7, 9], segs := [3, 1], combine := false, relabel := false, rescale := true, skipOverlap := false, dtype := none } =
+    .ok (.stacked 1 [[[0, 0, 1], [1, 0, 0]], [[0, 0, 0], [1, 1, 0]], [[0, 0, 0], [0, 0, 0]]]) := by
+  rw [stacked_channel exBin _ exBin_wf rfl (by decide) (by decide) (by decide)]
+  decide
+
+/-- segments 1 and 2 share pixel 1 at stack value 7: refused … -/
+example : readCore exBin { keys := [8, 7], segs := [2, 1], combine := true, relabel := false, rescale := true, skipOverlap := false, dtype := none } = .error .runtime :=
+  overlap_refused exBin _ exBin_wf rfl (by decide) (by decide) exBin_binary (by decide) (by decide) rfl 7 (by decide)
+    2 1 1 (by decide) (by decide) (by decide) ⟨1, by decide, by decide⟩ ⟨1, by decide, by decide⟩
+
+/-- … but reading 3 and 1 (which do not overlap anywhere) is accepted -/
+example : ∃ out, readCore exBin { keys := [8, 7], segs := [3, 1], combine := true, relabel := true, rescale := true, skipOverlap := false, dtype := none } = .ok (.combined out) ∧ out.length = 2 := by
+  obtain ⟨out, h, hl, _⟩ := combined_value exBin { keys := [8, 7], segs := [3, 1], combine := true, relabel := true, rescale := true, skipOverlap := false, dtype := none } exBin_wf rfl (by decide) (by decide) exBin_binary
+      (by decide) (by decide) (Or.inr (by
+        intro k hk s₁ h1 s₂ h2 hne i ⟨⟨p, hp, hpp⟩, ⟨q, hq, hqq⟩⟩
+        simp only [List.mem_cons, List.not_mem_nil, or_false] at hk h1 h2
+        rcases hk with rfl | rfl <;> rcases h1 with rfl | rfl <;> rcases h2 with rfl | rfl <;>
+          first | exact absurd rfl hne | skip
+        all_goals (
+          match i with
+          | 0 | 1 | 2 => simp [segPlane, exBin] at hp hq; omega
+          | (n + 3) => simp [segPlane, exBin] at hp)))
+  exact ⟨out, h, hl⟩
+
+example : (readCore exBin { keys := [8, 7], segs := [3, 1], combine := true, relabel := true, rescale := true, skipOverlap := false, dtype := none }) = .ok (.combined [[2, 0, 1], [2, 2, 0]]) := by decide
 
 example : getSegmentNumbers
     [⟨0, "Background", ("B", "DCM"), ("B", "DCM"), "MANUAL", none, none⟩,
